@@ -60,6 +60,7 @@ static size_t gen_value(int kind) {
 /* optional out-parameters are NULL in one call out of four; the variable is preset to what the callee would have stored */
 static size_t *optout(size_t *p, size_t expect) { if (rng_chance(&R, 1, 4)) { *p = expect; vf_count("calls_with_null_out_parameter", 1); return NULL; } return p; }
 static void list_check(qlist_t *L) {
+    { static unsigned long pc; if (L->qmutex && (++pc % 29) == 0 && !vf_lock_probe(L->qmutex)) { judge("C09", "unusable-for-other-threads", "a second thread can not take the lock of the (thread-safe) list: an earlier call returned with it held"); return; } }
     if (DEBUG_NOW()) { L->debug(L, DEVNULL); vf_count("debug_prints", 1); }
     vf_count("state_compares", 1);
     if (L->size(L) != (size_t)MN) { judge("C09", "size", "size()=%zu model=%d", L->size(L), MN); return; }
@@ -79,7 +80,8 @@ static void list_check(qlist_t *L) {
 
 static qlist_t *list_new(void) {
     ledger_mark = vf_ledger_mark();
-    qlist_t *L = qlist(0);
+    static unsigned long lctr; lctr++;
+    qlist_t *L = qlist((lctr & 1) ? QLIST_THREADSAFE : 0);
     if (!L) { fprintf(stderr, "qlist() failed\n"); exit(2); }
     abandon = false; m_clear(); MMAX = 0;
     return L;
@@ -240,7 +242,7 @@ static void history_qs(long caseno, bool is_stack) {
     int nops = VF.thorough ? 3000 : 1000;
     vf_case_begin(caseno, "random %s history ops=%d", is_stack ? "stack" : "queue", nops);
     ledger_mark = vf_ledger_mark();
-    qqueue_t *Q = is_stack ? NULL : qqueue(0); qstack_t *S = is_stack ? qstack(0) : NULL;
+    static unsigned long qctr; qctr++; qqueue_t *Q = is_stack ? NULL : qqueue((qctr & 1) ? QQUEUE_THREADSAFE : 0); qstack_t *S = is_stack ? qstack((qctr & 1) ? QSTACK_THREADSAFE : 0) : NULL;
     if (!Q && !S) exit(2);
     abandon = false; m_clear(); MMAX = 0;
     qlist_t *L = is_stack ? S->list : Q->list;
@@ -319,7 +321,7 @@ static void history_grow(long caseno) {
     int nops = VF.thorough ? 1500 : 500;
     vf_case_begin(caseno, "random grow-buffer history ops=%d", nops);
     ledger_mark = vf_ledger_mark();
-    qgrow_t *G = qgrow(0); if (!G) exit(2);
+    static unsigned long gctr; gctr++; qgrow_t *G = qgrow((gctr & 1) ? QGROW_THREADSAFE : 0); if (!G) exit(2);
     abandon = false; m_clear(); MMAX = 0;
     for (int op = 0; op < nops && !abandon; op++) {
         uint32_t c = rng_below(&R, 100);
